@@ -34,12 +34,12 @@ import (
 func init() { register("C15", checkC15) }
 
 type c15Req struct {
-	proto     string
-	q, e      int
-	failRuns  []int // ordinals of failing traceroute runs (order of appearance on the wire)
-	failE2e   []int // ordinals of failing end-to-end probes
-	fetcher   string
-	rdns      bool
+	proto    string
+	q, e     int
+	failRuns []int // ordinals of failing traceroute runs (order of appearance on the wire)
+	failE2e  []int // ordinals of failing end-to-end probes
+	fetcher  string
+	rdns     bool
 	// rdnsDead: the resolver fails every lookup of the request (no PTR records, resolver down)
 	rdnsDead  bool
 	delayPerm int
